@@ -190,11 +190,13 @@ def script_points(world_name, prestate):
 
 def crash_job(args):
     world_name, prestate, scope, pt, expect_prefix = args
+    probe = scope.endswith("+q")      # query commands between the crash and the recovery
+    full_scope, scope = scope, scope[:-2] if scope.endswith("+q") else scope
     world = worlds.curated()[world_name]
     proj, root = _mkproj(world, "crash")
     t0 = time.time()
     fails = []
-    tr = {"world": world_name, "prestate": prestate, "scope": scope, "lid": pt["lid"], "k": pt["k"],
+    tr = {"world": world_name, "prestate": prestate, "scope": full_scope, "lid": pt["lid"], "k": pt["k"],
           "call": pt["call"], "path_class": pt["path_class"], "window": pt["window"]}
     try:
         edits = _reach(proj, world, prestate)
@@ -231,10 +233,32 @@ def crash_job(args):
         proj.read_trace()
         if r["watchdog"]:
             fails.append("crashed-build-hung")
+        listing = None
+        if probe:
+            # what do the query commands make of the state the crash left?
+            listing = {}
+            for q in ("sources", "targets", "ood"):
+                qr = e3.run_session(["redo-" + q], proj.p, proj.env, root, "q" + q, timeout=RECOVERY_WATCHDOG)
+                listing[q] = sorted(l.strip() for l in qr["out"].split("\n") if l.strip())
+                if qr["watchdog"] or qr["rc"] != 0:
+                    fails.append("query-fails-in-crash-state")
+            tr["queries_after_crash"] = listing
+            on_disk = {n for n, c in _contents(proj).items() if n in world.targets}
+            # every target file on disk was put there by redo (the pre-states leave no hand-made file at a target's name)
+            mine_as_source = sorted(on_disk & set(listing["sources"]))
+            if mine_as_source:
+                tr["own_output_listed_as_source"] = mine_as_source
+                fails.append("crash-state-own-output-listed-as-source")
         # ---- recovery: just run it again ------------------------------------------------------
         rec = e3.run_session(BUILD, proj.p, proj.env, root, "rec", timeout=RECOVERY_WATCHDOG)
         tr["recovery"] = {"rc": rec["rc"], "watchdog": rec["watchdog"], "err": rec["err"][-1500:], "t": rec["t_all"],
                           "ran": [l for l in proj.read_trace() if l.startswith("B ")]}
+        if listing is not None:
+            reran = {l.split(" ")[1] for l in tr["recovery"]["ran"]}
+            missed = sorted(t for t in reran if t in listing["targets"] and t not in listing["ood"])
+            if missed:
+                tr["rebuilt_but_not_listed_out_of_date"] = missed
+                fails.append("crash-state-ood-misses-a-target-the-next-build-redoes")
         if rec["watchdog"]:
             fails.append("recovery-watchdog")
         elif rec["rc"] != 0:
@@ -299,8 +323,9 @@ def plan(tier):
         c += [("chain", ps, "proc") for ps in ("first", "incr")]
         c += [("csum-append", ps, sc) for ps in PRESTATES["csum-append"] for sc in ("tree", "script", "sproc")]
         c += [(w, ps, "sproc") for w in ("csum-mid", "chain-append") for ps in PRESTATES[w]]
+        c += [(w, ps, "tree+q") for w in ("chain", "csum-mid") for ps in PRESTATES[w]]
         return c, True
-    return [(w, ps, sc) for w in PRESTATES for ps in PRESTATES[w] for sc in ("proc", "tree", "script", "sproc")], False
+    return [(w, ps, sc) for w in PRESTATES for ps in PRESTATES[w] for sc in ("proc", "tree", "script", "sproc", "tree+q")], False
 
 
 def signature(tr):
